@@ -15,11 +15,15 @@ LEVELS = {
     "C02": "model_checking",
     "C03": "model_checking",
     "C15": "model_checking",
+    "C10": "model_checking",
+    "C16": "model_checking",
 }
 
 # property -> vlib module with run_property(prop, tier, report)
 RUNNERS = {
     "C15": "names",
+    "C10": "plug",
+    "C16": "det",
 }
 
 
